@@ -371,11 +371,15 @@ class Tensor:
         # (init gradients for those who are going to need it)
         ordered_nodes = []
         visited_nodes = set()
+        stale_grads = {} # gradients kept on non-leaf tensors by earlier calls must not be propagated again
         def visit_node(node):
             if node not in visited_nodes:
                 visited_nodes.add(node)
                 for child in node._children:
                     if child.requires_grad and child._grad is None:
+                        child.zero_()
+                    elif child.requires_grad and not child.is_leaf and child not in stale_grads:
+                        stale_grads[child] = child._grad
                         child.zero_()
                     visit_node(child)
                 ordered_nodes.append(node)
@@ -393,6 +397,8 @@ class Tensor:
             if node.grad_fn is not None:
                 #print(node.grad_fn)
                 node.grad_fn()
+            if node in stale_grads:
+                node._grad = stale_grads[node] + node._grad
             if node is not self and not node.is_leaf and not node._retain_grad and not retain_grads__:
                 del node._grad
                 node._grad = None
